@@ -3,6 +3,7 @@ from ..core import operand_locals
 from ..expr import expr_of_operand, call_arg_exprs, evaluate
 from . import common as cm
 from . import consts
+from ..inline import PRIMITIVE_MODULES
 
 EXPLANATION = (
     "CONST: every constants::NAME with a namesake in the vendored libsodium-sys bindings has the same "
@@ -36,7 +37,48 @@ def get(prog, a):
     return prog.by_path.get(a[0], []) if len(a) == 1 else cm.find_method(prog, a[0], a[1])
 
 
-def boundaries(prog, f):
+def _param_cuts(prog, g, pi, depth):
+    """cuts that crate function g (and the framed functions it delegates to) makes on its parameter pi"""
+    memo = prog.__dict__.setdefault("_c01_pcuts", {})
+    key = (g.key, pi)
+    if key in memo:
+        return memo[key]
+    memo[key] = set()
+    from ..inline import inline
+    v = inline(prog, g)
+    out = set(cm.cut_points(prog, v).get(pi, set()))
+    if depth < 3:
+        out |= _delegated_cuts(prog, v, depth + 1, only_root=pi)
+    memo[key] = out
+    return out
+
+
+def _delegated_cuts(prog, v, depth, only_root=None):
+    out = set()
+    if depth >= 3:
+        return out
+    for c in v.calls():
+        ts = [t for t in prog.callee_fns(c) if t.kind != "closure"]
+        if len(ts) != 1:
+            continue
+        g = ts[0]
+        if g.path.startswith(PRIMITIVE_MODULES):
+            continue        # how a primitive serialises its own output is not wire framing
+        for i, a in enumerate(c.args):
+            if a.get("k") not in ("copy", "move") or a["p"]:
+                continue
+            ty = v.locals[a["l"]]["t"]
+            if not (ty.startswith("&") and "[u8" in ty):
+                continue
+            root, s0 = cm.view_span(v, a["l"])
+            if s0 is None or (only_root is not None and root != only_root):
+                continue
+            for k in _param_cuts(prog, g, i + 1, depth):
+                out.add(s0 + k)
+    return out
+
+
+def boundaries(prog, f, _depth=0):
     """constant cut offsets (absolute within the buffer being framed: `split_at(32)` then
     `.1.split_at(16)` cuts at 32 and 48, like `[..32]`/`[32..48]`/`[48..]`) and rotations, on the view of
     f with its private helpers folded in"""
@@ -45,6 +87,10 @@ def boundaries(prog, f):
     v = f if getattr(f, "inlined", None) else inline(prog, f)
     for root, cuts in cm.cut_points(prog, v).items():
         offs |= cuts
+    # framing is compositional: a (sub-)view handed to another framed crate function is cut there;
+    # `seal_open` cutting at 32 and passing [32..] to `crypto_box_open_easy` (which cuts at 16) frames
+    # the wire exactly like a `seal_open` that cuts at 32 and 48 itself
+    offs |= _delegated_cuts(prog, v, _depth)
     folded = set(getattr(v, "inlined", []))
     for g in [v] + [u for u in prog.unit(f) if u.key != f.key and u.path not in folded]:
         for c in g.calls():
